@@ -170,6 +170,7 @@ def cmd_check(args):
     secs = args.secs or TIER_SECS[tier]
     agg_all = batch.new_agg()
     per_profile = {}
+    per_profile_digests = {}
     new_violation = None
     for pname, share in profiles.PROPERTY_PROFILES[prop]:
         runs = max(1, int(total_runs * share))
@@ -178,11 +179,32 @@ def cmd_check(args):
                            max_secs=secs * share + 5,
                            stop_on_violation=not (args.all or args.want),
                            opts={'known': [list(k) for k in known_sigs]})
+        per_profile_digests[pname] = dict(agg['digests'])
         per_profile[pname] = {
             'runs': agg['evaluations'], 'wall_s': round(time.time() - t0, 2),
             'distinct_nontrivial': len(agg['shapes'])}
         batch.merge(agg_all, agg)
     agg = agg_all
+    # determinism spot check: the first runs of every profile are executed again in this
+    # process; their event-log digests must equal the ones computed by the pool workers
+    digest_pairs = 0
+    for pname, share in profiles.PROPERTY_PROFILES[prop]:
+        prof = profiles.get(pname)
+        for i in range(0, 8):
+            d = per_profile_digests.get(pname, {}).get(i)
+            if d is None:
+                continue
+            from dst.rng import derive
+            case = json.loads(json.dumps(prof.gen_case(derive(base_seed, pname, i))))
+            try:
+                again = prof.evaluate(case, prop=prop).get('digest')
+            except HarnessError:
+                continue
+            digest_pairs += 1
+            if again != d:
+                print('HARNESS-ERROR: run %d of profile %s is not deterministic (digest %s in a worker, '
+                      '%s here)' % (i, pname, d, again))
+                return 2
     # classify violations
     known_hits = dict(agg['known_hits'])
     unlisted = []
@@ -255,6 +277,7 @@ def cmd_check(args):
             'per_profile': per_profile,
             'components': COMPONENTS,
             'shrink_executions': shrink_log.get('shrink_executions', 0),
+            'determinism_digest_pairs_checked': digest_pairs,
             'harness_errors': len(agg['harness_errors']),
             'cut_short_by_time_cap': agg['cut_short'],
             'seeds': {'base': base_seed, 'runs': agg['evaluations']},
